@@ -23,6 +23,10 @@ Tie    = (1) the environment compiled into the driver is compared, entry by
              same object again == a fresh object with the new value == the model.
          (7) `decode-first`: fresh interpreter processes that only decode the model's
              tag lists: enumeration leaves must be the NAMES of the model's tables.
+         (8) `subclass-history` (fresh processes): run-time subclasses extending library
+             sequences, after three encode histories; the model evaluates the extended schema.
+         (9) `through-stack` (fresh process): every request / ack class through two real
+             stacks; wire octets = NPCI ++ header ++ the model's parameters; + truthiness.
 Oracle = on the implementation alone: decode(encode(v)) == v as canonical value
          trees built by walking the class tables (not dict_contents), nothing
          left over, re-encoding gives the identical octets, octets parse back
@@ -1810,6 +1814,386 @@ def run_synthetic(ctx, drv):
         _SCHEMA = saved
 
 
+# ------------------------------------------------------------------ fresh interpreter processes with a chosen HISTORY
+
+def fresh_entry():
+    """runs in a FRESH interpreter: stdin = {"fn", "spec", "tier", "seed", "model_ok"};
+    stdout = the sub-context's results as JSON"""
+    req = json.load(sys.stdin)
+    core.bind_repo()
+    sub = core.Ctx("C03", req["tier"], req["seed"])
+    sub.model_ok = req["model_ok"]
+    globals()[req["fn"]](sub, req["spec"])
+    per_kind, kept = {}, []
+    for f in sub.failures:                      # at most 60 of a kind, so that no kind hides another
+        per_kind[f["kind"]] = per_kind.get(f["kind"], 0) + 1
+        if per_kind[f["kind"]] <= 60:
+            kept.append(f)
+    json.dump({"failures": kept, "n_failures": len(sub.failures),
+               "disagreements": sub.disagreements[:50], "evaluations": sub.evaluations,
+               "signatures": sorted(set("%s|%s" % (k, sg) for k, sg in sub.signatures)),
+               "kinds": dict(sub.kinds), "streams": dict(sub.streams), "errkinds": dict(sub.errkinds),
+               "extra": sub.extra}, sys.stdout, default=str)
+
+
+def run_fresh(ctx, fn, spec):
+    env = dict(os.environ, VERIF_REPO=core.REPO, PYTHONDONTWRITEBYTECODE="1", TZ="UTC")
+    env.pop("PYTHONPATH", None)
+    code = "import sys; sys.path.insert(0, %r); from harness import c03; c03.fresh_entry()" % core.VERIF
+    req = {"fn": fn, "spec": spec, "tier": ctx.tier, "seed": ctx.seed, "model_ok": bool(ctx.model_ok)}
+    p = subprocess.run([sys.executable, "-c", code], input=json.dumps(req), stdout=subprocess.PIPE,
+                       stderr=subprocess.PIPE, text=True, env=env, cwd=core.VERIF, timeout=1200)
+    if p.returncode != 0:
+        raise core.Infra("fresh worker %s failed: %s" % (fn, p.stderr[-800:]))
+    d = json.loads(p.stdout)
+    ctx.failures.extend(d["failures"])
+    ctx.disagreements.extend(d["disagreements"])
+    ctx.evaluations += d["evaluations"]
+    for sg in d["signatures"]:
+        k, _, rest = sg.partition("|")
+        ctx.signatures.add((k, rest))
+    ctx.kinds.update(d["kinds"])
+    ctx.streams.update(d["streams"])
+    ctx.errkinds.update(d["errkinds"])
+    return d["extra"]
+
+
+# ------------------------------------------------------------------ the `subclass-history` stream
+#
+# Vendor code extends a library sequence by subclassing it with a longer
+# sequenceElements.  Anything the generic code remembers PER CLASS must belong to
+# that class alone.  Fresh processes define such subclasses at run time and
+# round-trip them after different histories: the parent encoded first, the
+# subclass first, a bare element-less Sequence() first.  The model evaluates the
+# extended schema (the driver takes the environment of the run-time classes).
+
+SUBCLASS_PARENTS = ["DeviceObjectPropertyReference", "DateTime", "PropertyValue", "ReadAccessSpecification",
+                    "Address", "ErrorType", "RecipientProcess",
+                    "ReadPropertyRequest", "WhoIsRequest", "IAmRequest", "SubscribeCOVRequest",
+                    "GetAlarmSummaryRequest", "GetEventInformationRequest", "ReadPropertyACK", "Error"]
+
+
+def subclass_family():
+    """[(parent class, [subclasses])]: extra optional / required / both elements with contexts above the parent's"""
+    from bacpypes.constructeddata import Element, Sequence
+    from bacpypes.primitivedata import Unsigned, CharacterString, Real
+    from bacpypes import basetypes as bt, apdu
+    out = []
+    for name in SUBCLASS_PARENTS:
+        parent = getattr(bt, name, None) or getattr(apdu, name, None)
+        if parent is None or not issubclass(parent, Sequence):
+            continue
+        base = list(parent.sequenceElements)
+        variants = {
+            "Opt": [Element("vendorOpt", Unsigned, 20, True)],
+            "Req": [Element("vendorReq", CharacterString, 21)],
+            "Both": [Element("vendorOpt", Unsigned, 20, True), Element("vendorReq", CharacterString, 21),
+                     Element("vendorTail", Real, 22, True)],
+        }
+        subs = [type(str(parent.__name__ + "Ext" + tag), (parent,), {"sequenceElements": base + extra})
+                for tag, extra in sorted(variants.items())]
+        out.append((parent, subs))
+    return out
+
+
+def fresh_subclass_history(ctx, spec):
+    global _SCHEMA
+    order, extra, mal = spec
+    from bacpypes.primitivedata import TagList
+    from bacpypes.constructeddata import Sequence
+    drv = core.Driver("drv_c03") if ctx.model_ok else None
+    rng = ctx.sub_rng("c03-subclass/" + order)
+    lib = schema()
+    fam = subclass_family()
+    subs = [c for _p, cs in fam for c in cs]
+
+    def encode_parents():
+        g = Gen(rng, maxdepth=2)
+        for parent, _cs in fam:
+            node = lib.by_cls[parent]
+            impl_encode(node, g.node_value(node, 0))
+
+    if order == "bare-first":
+        Sequence().encode(TagList())          # an element-less instance of the common base class
+    elif order == "parent-first":
+        encode_parents()
+    saved = lib
+    try:
+        _SCHEMA = translator().walk(roots=subs)
+        prefix = [{"op": "setenv", "env": driver_env(_SCHEMA)}]
+        if drv:
+            info = drv.ask(prefix + [{"op": "wf"}])[1]
+            if not info.get("wf"):
+                raise core.Infra("the subclass environment is not well-formed: %r" % (
+                    [_SCHEMA.nodes[i].name for i in info.get("bad", [])],))
+        nodes = [n for n in _SCHEMA.nodes if n.cls in subs]
+        run_slice(ctx, drv, nodes, extra, mal, rng, prefix=prefix, tag="sub-%s-" % order)
+        ctx.extra["subclasses"] = [n.name for n in nodes]
+    finally:
+        _SCHEMA = saved
+    # the library classes themselves, after that history (bare-first poisons classes not yet encoded)
+    idx = [lib.by_cls[p].idx for p, _cs in fam]
+    others = [n for n in lib.nodes if n.k == "seq" and n.idx not in idx]
+    rng.shuffle(others)
+    run_slice(ctx, drv, [lib.nodes[i] for i in idx] + others[:40], 1, 2, rng, tag="sub-%s-lib-" % order)
+
+
+# ------------------------------------------------------------------ truthiness + the `through-stack` stream
+
+def truthiness(ctx):
+    """no PDU-like object may be falsy because its payload is empty (code everywhere
+    tests `if not apdu:` / `if iocb.ioResponse:`); the unchanged tree defines no
+    __len__ / __bool__ on them"""
+    from bacpypes.comm import PDUData, PCI
+    from bacpypes.pdu import PDU
+    from bacpypes import apdu as A
+    things = [("PDUData()", PDUData()), ("PDUData(b'')", PDUData(b"")), ("PDU()", PDU()), ("PDU(b'')", PDU(b"")),
+              ("APDU()", A.APDU()), ("ConfirmedRequestPDU()", A.ConfirmedRequestPDU()),
+              ("UnconfirmedRequestPDU()", A.UnconfirmedRequestPDU()), ("ComplexAckPDU()", A.ComplexAckPDU()),
+              ("SimpleAckPDU()", A.SimpleAckPDU()), ("ErrorPDU()", A.ErrorPDU())]
+    for reg in (A.confirmed_request_types, A.complex_ack_types, A.unconfirmed_request_types, A.error_types):
+        for _c, cls in sorted(reg.items()):
+            things.append((cls.__name__ + "()", cls()))
+            apdu = A.APDU()
+            try:
+                obj = cls()
+                obj.decode(apdu)          # empty payload: decodes for classes without required parameters
+                things.append((cls.__name__ + " decoded from an empty payload", obj))
+            except Exception:
+                pass
+            things.append(("APDU carrying " + cls.__name__, apdu))
+    for label, x in things:
+        ctx.count("truthiness", ("truthy", label.split("(")[0].split(" ")[0]))
+        try:
+            ok = bool(x) is True
+        except Exception as e:
+            ok = False
+            label += " (bool raises %s)" % type(e).__name__
+        if not ok:
+            ctx.fail("falsy-pdu", {"truthiness": label}, "bool(%s) is not True: an object with an empty payload "
+                     "is treated as missing" % label, type=label)
+
+
+def make_rig():
+    """two complete stacks (Application / ASAP / SMAP / NSAP / vlan node) on one vlan,
+    with a tap on the wire"""
+    from bacpypes.comm import bind
+    from bacpypes.task import TaskManager
+    from bacpypes.pdu import Address, LocalBroadcast
+    from bacpypes.vlan import Network, Node
+    from bacpypes.app import Application
+    from bacpypes.appservice import StateMachineAccessPoint, ApplicationServiceAccessPoint
+    from bacpypes.netservice import NetworkServiceAccessPoint, NetworkServiceElement
+    from bacpypes.local.device import LocalDeviceObject
+
+    class _NSE(NetworkServiceElement):
+        _startup_disabled = True
+
+    class TapNetwork(Network):
+        def __init__(self, *a, **kw):
+            Network.__init__(self, *a, **kw)
+            self.wire = []
+
+        def process_pdu(self, pdu):
+            self.wire.append((str(pdu.pduSource), bytes(pdu.pduData).hex()))
+            return Network.process_pdu(self, pdu)
+
+    class Station(Application):
+        def __init__(self, instance, vlan):
+            device = LocalDeviceObject(objectName="dev%d" % instance, objectIdentifier=("device", instance),
+                                       maxApduLengthAccepted=1476, segmentationSupported="noSegmentation",
+                                       vendorIdentifier=999)
+            Application.__init__(self, device)
+            self.address = Address(instance)
+            self.asap = ApplicationServiceAccessPoint()
+            self.smap = StateMachineAccessPoint(device)
+            self.smap.deviceInfoCache = self.deviceInfoCache
+            self.nsap = NetworkServiceAccessPoint()
+            self.nse = _NSE()
+            bind(self.nse, self.nsap)
+            bind(self, self.asap, self.smap, self.nsap)
+            self.node = Node(self.address, vlan)
+            self.nsap.bind(self.node)
+            self.requests, self.responses, self.answer = [], [], None
+
+        def indication(self, apdu):
+            self.requests.append(apdu)
+            if self.answer:
+                self.response(self.answer(apdu))
+
+        def confirmation(self, apdu):
+            self.responses.append(apdu)
+
+    tm = TaskManager()
+    vlan = TapNetwork(broadcast_address=LocalBroadcast())
+    return tm, vlan, Station(1, vlan), Station(2, vlan)
+
+
+def pump(tm):
+    for _ in range(10000):
+        task, _delta = tm.get_next_task()
+        if task is None:
+            return
+        tm.process_task(task)
+    raise core.Infra("through-stack: the task queue does not drain")
+
+
+def fresh_through_stack(ctx, spec):
+    """every confirmed / unconfirmed request class and every complex ack class through
+    two real stacks: the octets on the wire = NPCI ++ APCI header ++ the MODEL's encoding of
+    the parameters, and the peer application receives an equal value"""
+    per_class = spec
+    from bacpypes import apdu as A
+    drv = core.Driver("drv_c03") if ctx.model_ok else None
+    sch = schema()
+    rng = ctx.sub_rng("c03-through-stack")
+    g = Gen(rng, maxdepth=1)
+    truthiness(ctx)
+    tm, vlan, client, server = make_rig()
+    pending = []          # (case, sent tree, wire octets) for the model comparison
+
+    def values(node):
+        seen, out = set(), []
+        plans = [p for p, _s in plans_for(node, rng, True)]
+        rng.shuffle(plans)
+        # the presence patterns that give the SHORTEST encodings first: nothing optional, empty lists
+        plans = [{"present": set()}] + plans
+        for plan in plans:
+            if len(out) >= per_class:
+                break
+            obj = g.node_value(node, 0, plan)
+            for f in node.fields:           # one of them with every list empty
+                if len(out) == 0 and f.ref.k == "ty" and f.ref.node.k == "list" and isinstance(getattr(obj, f.name, None), list):
+                    setattr(obj, f.name, [])
+            try:
+                hexs = impl_encode(node, node.cls(**{f.name: getattr(obj, f.name) for f in node.fields}))["hex"]
+            except Exception:
+                continue
+            if len(hexs) // 2 > 1200 or hexs in seen:
+                continue
+            seen.add(hexs)
+            out.append(obj)
+        return out
+
+    def send(kind, node, obj, reply_node=None, reply_obj=None):
+        case = {"through_stack": kind, "type": node.name, "t": node.idx, "v": tree(node, obj)}
+        if reply_node is not None:
+            case["ack_type"], case["ack_v"] = reply_node.name, tree(reply_node, reply_obj)
+        ctx.count("through-stack", (kind, (reply_node or node).name, "empty" if not impl_encode(reply_node or node, reply_obj or obj)["hex"] else "params"))
+        del server.requests[:]
+        del client.responses[:]
+        del vlan.wire[:]
+        if kind == "unconfirmed":
+            server.answer = None
+        elif reply_node is None:
+            server.answer = lambda req: A.SimpleAckPDU(context=req)
+        else:
+            def answer(req, reply_node=reply_node, reply_obj=reply_obj):
+                ack = reply_node.cls(context=req, **{f.name: getattr(reply_obj, f.name) for f in reply_node.fields})
+                return ack
+            server.answer = answer
+        try:
+            req = node.cls(**{f.name: getattr(obj, f.name) for f in node.fields})
+            req.pduDestination = server.address
+            if not bool(req):
+                ctx.fail("falsy-pdu", case, "bool(%s instance) is not True" % node.name, type=node.name)
+            client.request(req)
+            pump(tm)
+        except core.Infra:
+            raise
+        except Exception as e:
+            ctx.fail("through-stack", case, "%s sent through Application/ASAP/SMAP/NSAP: %s: %s" % (
+                node.name, type(e).__name__, e), type=node.name, exc=type(e).__name__)
+            return
+        if len(server.requests) != 1 or not isinstance(server.requests[0], node.cls):
+            ctx.fail("through-stack", dict(case, wire=vlan.wire), "%s did not arrive at the peer application (%d PDUs "
+                     "delivered)" % (node.name, len(server.requests)), type=node.name)
+            return
+        got = server.requests[0]
+        if not bool(got):
+            ctx.fail("falsy-pdu", case, "the %s the peer decoded is falsy" % node.name, type=node.name)
+        if core.canon(tree(node, got)) != core.canon(case["v"]):
+            ctx.fail("through-stack", dict(case, received=tree(node, got)),
+                     "the %s the peer application received differs from the one sent" % node.name, type=node.name)
+            return
+        wire = [w for src, w in vlan.wire if src == str(client.address)]
+        if not wire:
+            ctx.fail("through-stack", case, "nothing from the client on the wire", type=node.name)
+            return
+        pending.append((dict(case, part="request"), node, case["v"], wire[0], kind))
+        if reply_node is not None:
+            if len(client.responses) != 1 or not isinstance(client.responses[0], reply_node.cls):
+                ctx.fail("through-stack", dict(case, wire=vlan.wire), "the %s did not arrive at the requesting application: %r"
+                         % (reply_node.name, [type(x).__name__ for x in client.responses]), type=reply_node.name)
+                return
+            back = client.responses[0]
+            if not bool(back):
+                ctx.fail("falsy-pdu", case, "the decoded %s (ioResponse) is falsy" % reply_node.name, type=reply_node.name)
+            if core.canon(tree(reply_node, back)) != core.canon(case["ack_v"]):
+                ctx.fail("through-stack", dict(case, received=tree(reply_node, back)),
+                         "the %s the requester received differs from the one sent" % reply_node.name, type=reply_node.name)
+                return
+            wire = [w for src, w in vlan.wire if src == str(server.address)]
+            if wire:
+                pending.append((dict(case, part="ack"), reply_node, case["ack_v"], wire[0], "ack"))
+
+    for choice, cls in sorted(A.confirmed_request_types.items()):
+        node = sch.by_cls[cls]
+        for obj in values(node):
+            send("confirmed", node, obj)
+    for choice, cls in sorted(A.unconfirmed_request_types.items()):
+        node = sch.by_cls[cls]
+        for obj in values(node):
+            send("unconfirmed", node, obj)
+    for choice, cls in sorted(A.complex_ack_types.items()):
+        rcls = A.confirmed_request_types.get(choice)
+        if rcls is None:
+            continue
+        rnode, anode = sch.by_cls[rcls], sch.by_cls[cls]
+        reqs = values(rnode)
+        for obj in values(anode):
+            if reqs:
+                send("confirmed", rnode, rng.choice(reqs), anode, obj)
+
+    # the octets on the wire: NPCI (local unicast, no routing: 01 04 / 01 00) ++ APCI header ++ parameters
+    if drv and pending:
+        model = drv.ask([{"op": "enc", "t": node.idx, "v": v} for _c, node, v, _w, _k in pending])
+        cases, a, b = [], [], []
+        for (case, node, v, wire, kind), m in zip(pending, model):
+            svc = node.cls.serviceChoice
+            octs = bytes.fromhex(wire)
+            body = m.get("hex") if m.get("r") == "ok" else None
+            if kind == "confirmed":
+                shape_ok = len(octs) >= 6 and octs[0] == 1 and octs[2] >> 4 == 0 and octs[2] & 0x08 == 0 and octs[5] == svc
+                got_body = octs[6:].hex()
+            elif kind == "unconfirmed":
+                shape_ok = len(octs) >= 4 and octs[0] == 1 and octs[2] == 0x10 and octs[3] == svc
+                got_body = octs[4:].hex()
+            else:
+                shape_ok = len(octs) >= 5 and octs[0] == 1 and octs[2] >> 4 == 3 and octs[2] & 0x08 == 0 and octs[4] == svc
+                got_body = octs[5:].hex()
+            cases.append(dict(case, op="through-stack", wire=wire))
+            a.append({"header_ok": shape_ok, "body": got_body})
+            b.append({"header_ok": True, "body": body})
+            if not shape_ok or got_body != body:
+                ctx.fail("through-stack", dict(case, wire=wire, model_body=body),
+                         "%s: the octets at the bottom of the stack are %s, expected NPCI ++ header(service %d) ++ %s"
+                         % (node.name, wire, svc, body or "(nothing)"), type=node.name)
+        ctx.compare_stream("through-stack", cases, a, b,
+                           sig=lambda c, m: (c["through_stack"], c.get("part"), c.get("ack_type") or c["type"],
+                                             "empty" if not m.get("body") else "params"))
+    ctx.extra["through_stack_exchanges"] = len(pending)
+
+
+def run_histories(ctx):
+    ex = {}
+    for order in ("parent-first", "subclass-first", "bare-first"):
+        ex[order] = run_fresh(ctx, "fresh_subclass_history", [order, 3 if ctx.quick else 60, 6 if ctx.quick else 120])
+    ctx.extra["subclass_history"] = {"orders": sorted(ex), "subclasses": (ex.get("parent-first") or {}).get("subclasses")}
+    e = run_fresh(ctx, "fresh_through_stack", 4 if ctx.quick else 40)
+    ctx.extra["through_stack_exchanges"] = e.get("through_stack_exchanges")
+
+
 # ------------------------------------------------------------------ Annex F (tests, labelled as tests)
 
 def annex_f():
@@ -1949,6 +2333,13 @@ def replay_case(ctx, drv, case, label):
         return replay_mutate(ctx, drv, case)
     if "decode_first" in case:
         return replay_decode_first(ctx, drv, case)
+    if "through_stack" in case or "truthiness" in case:
+        run_fresh(ctx, "fresh_through_stack", 6)
+        return
+    if str(case.get("type", "")).find("Ext") > 0 and not [n for n in sch.nodes if n.name == case.get("type")]:
+        for order in ("parent-first", "subclass-first", "bare-first"):
+            run_fresh(ctx, "fresh_subclass_history", [order, 3, 6])
+        return
     node = None
     for n in sch.nodes:
         if n.name == case.get("type"):
@@ -1997,6 +2388,7 @@ def run(ctx):
     census_nonfamily(ctx, 6 if ctx.quick else 60)
     run_synthetic(ctx, drv)
     run_decode_first(ctx, drv, 2 if ctx.quick else 8, 2 if ctx.quick else 8)
+    run_histories(ctx)
     core.run_shards(ctx, "harness.c03", "shard_mutate",
                     [(k, 16, 2 if ctx.quick else 40) for k in range(16)])
     typed, skipped = typed_any_targets(sch)
